@@ -27,12 +27,14 @@ type c14Case struct {
 }
 
 type c14Reader struct {
+	Kind int `json:"kind,omitempty"` // which well-known error the injected error wraps (ops.FaultErr)
 	At   int `json:"at"`
 	Mode int `json:"mode"` // 0: (0,E) after At bytes; 1: (n,E) with the last chunk
 	Chunk int `json:"chunk,omitempty"`
 }
 
 type c14Writer struct {
+	Kind  int  `json:"kind,omitempty"`
 	At    int  `json:"at"`
 	Short int  `json:"short,omitempty"`
 	Once  bool `json:"once,omitempty"`
@@ -84,6 +86,7 @@ func c14CheckOne(c c14Case) string {
 	if c.Reader != nil {
 		cs.Faults.ReaderFailAt = c.Reader.At
 		cs.Faults.ReaderMode = c.Reader.Mode
+		cs.Faults.ErrKind = c.Reader.Kind
 		cs.Sched.ReadChunk = c.Reader.Chunk
 		res := c14Exec(c, &cs)
 		if res.Infra != "" {
@@ -101,6 +104,7 @@ func c14CheckOne(c c14Case) string {
 		cs.Faults.WriterFailAt = c.Writer.At
 		cs.Faults.WriterShort = c.Writer.Short
 		cs.Faults.WriterOnce = c.Writer.Once
+		cs.Faults.ErrKind = c.Writer.Kind
 		res := c14Exec(c, &cs)
 		if res.Infra != "" {
 			return ""
@@ -155,7 +159,7 @@ func c14All(t failer, col *collector, c c14Case, stride int) {
 					continue
 				}
 				cc := c
-				cc.Reader = &c14Reader{At: k, Mode: mode, Chunk: []int{0, 1, 7}[(k+mode)%3]}
+				cc.Reader = &c14Reader{At: k, Mode: mode, Chunk: []int{0, 1, 7}[(k+mode)%3], Kind: (k + 3*mode) % 6}
 				pos := "reader@inside"
 				if k == 0 {
 					pos = "reader@0"
@@ -177,7 +181,7 @@ func c14All(t failer, col *collector, c c14Case, stride int) {
 		for j := 0; j < w; j++ {
 			for v := 0; v < 3; v++ {
 				cc := c
-				cc.Writer = &c14Writer{At: j}
+				cc.Writer = &c14Writer{At: j, Kind: (j + v) % 6}
 				switch v {
 				case 1:
 					cc.Writer.Short = 1
